@@ -21,7 +21,7 @@ ASSUMPTIONS = ['property values drawn from the valid domain: delivery_mode '
 
 def shards(tier, seed):
     n = 16
-    draws = 1 if tier == 'quick' else 12
+    draws = 1 if tier == 'quick' else 100
     return common.with_configs(
         [{'name': 'm%d' % i, 'i': i, 'n': n, 'draws': draws}
          for i in range(n)], common.ALL_CONFIGS, take=1)
